@@ -74,6 +74,31 @@ Theorem C17_tetrahedron_coplanar_refuted : tetra_rejects_coplanar = false ->
 Proof. exact tetra_coplanar_refuted_lemma. Qed.
 Print Assumptions C17_tetrahedron_coplanar_refuted.
 
+(* the guards exist in the code as it is now (flags TRANSLATED from /repo): no documented row is a gap row and the
+   Tetrahedron setter rejects coplanar vertices -- so the two theorems above hold WITHOUT exclusion; removing a guard
+   from the code breaks these statements *)
+Theorem C17_no_gap_rows : forall d, In d doc_table -> gap_row d = false.
+Proof. exact no_gap_rows_lemma. Qed.
+Print Assumptions C17_no_gap_rows.
+
+Theorem C17_no_value_gap : forall d inp, input_value_gap d inp = false.
+Proof. exact no_value_gap_lemma. Qed.
+Print Assumptions C17_no_value_gap.
+
+(* hence, full strength: every documented array attribute, every well-formed input *)
+Theorem C17_assign_iff_documented_full : forall d r inp,
+  In d doc_table -> find_setter (d_class d) (d_attr d) = Some r -> wf_vinput inp ->
+  (doc_accepts d inp = true -> exists v, assign_vec r inp = Stored v) /\
+  (doc_accepts d inp = false -> assign_vec r inp = Rejected).
+Proof. exact assign_iff_documented_full_lemma. Qed.
+Print Assumptions C17_assign_iff_documented_full.
+
+Theorem C17_accepts_iff_documented_full : forall d r s,
+  In d doc_table -> find_setter (d_class d) (d_attr d) = Some r -> Forall (fun n => 0 <= n) s ->
+  (accepts_shape r s = Ok <-> in_doc (d_shape d) s = true).
+Proof. exact accepts_iff_documented_full_lemma. Qed.
+Print Assumptions C17_accepts_iff_documented_full.
+
 (* geometry: the translated CylinderSegment guard rejects exactly the invalid region named by the property (negative
    sizes, inner radius above the outer one, reversed or more than 360 degree angle range), for all rationals *)
 Theorem C17_cylinder_segment_guard : forall r1 r2 h p1 p2 : Q,
